@@ -229,8 +229,11 @@ func newShardOwner(s ShardInfo, ownerFreqs map[int]int) (uint64, error) {
 		minFreq int
 	)
 
+	// The choice must not depend on the iteration order of the map: every
+	// replica applies this command and all of them have to pick the same
+	// node. Ties are broken by the smallest node id.
 	for id, freq := range ownerFreqs {
-		if minId == -1 || freq < minFreq {
+		if minId == -1 || freq < minFreq || (freq == minFreq && id < minId) {
 			minId, minFreq = int(id), freq
 		}
 	}
